@@ -2,6 +2,7 @@
    Only statements, each closed by `exact <lemma>`, its assumptions printed, and Examples showing
    that the hypotheses are met by non-trivial values.  Model: Model/Errors.v. *)
 From Pybtex Require Import Base.Prelude Base.PyChar Base.PyStr Model.Errors Proofs.Errors.
+From Pybtex Require Model.Scanner Model.BibParser Model.Aux Spec.Aux Model.BstParser Proofs.ErrorsBst Proofs.ErrorsReaders.
 
 (* capture mode: the block's list is exactly the sequence of reported problems, the block ends
    as its body does (return / fatal pybtex error / foreign exception), and afterwards
@@ -198,6 +199,102 @@ Theorem format_error_message_verbatim : forall e p,
 Proof. exact Proofs.Errors.format_error_message_verbatim. Qed.
 Print Assumptions format_error_message_verbatim.
 
+(* ================================================================================== *)
+(* PROOF GROWTH: the channel connected to the validated reader models of C10 (.bib), C20 (.aux)
+   and C15 (.bst), which are used as they are.  Message texts / descriptions are not part of
+   those models: [msg], [desc] are arbitrary. *)
+
+(* the exit status with and without --strict in one statement (error_code 0 at the start, problems
+   renderable, no foreign exception): 0 iff nothing was reported and nothing raised; with --strict
+   the first problem gives 1; without it reported problems give 2; a fatal pybtex error gives 1 *)
+Theorem cmdline_status_all : forall so c g ss,
+  g_cap g = None -> g_code g = 0%Z ->
+  Forall2 (fun e s => format_error e k_warning = Ok s) (reports c) ss ->
+  (forall e, In e (reports c) \/ ending c = Raised e -> exists s, format_error e k_error = Ok s) ->
+  ending c <> Crashed ->
+  let st := snd (cmdline_call g so c) in
+  (st = Ok 0%Z <-> reports c = [] /\ ending c = Returned) /\
+  (so = true -> reports c <> [] -> st = Ok 1%Z) /\
+  (so = false -> reports c <> [] -> ending c = Returned -> st = Ok 2%Z) /\
+  (forall f, ending c = Raised f -> st = Ok 1%Z).
+Proof. exact Proofs.Errors.cmdline_status_all. Qed.
+Print Assumptions cmdline_status_all.
+
+(* mode independence needs no renderability hypothesis when the problems are constructed errors *)
+Theorem modes_agree_constructed : forall c g,
+  g_cap g = None -> Forall constructed (reports c) ->
+  exists ss, Forall2 (fun e s => format_error e k_warning = Ok s) (reports c) ss /\ modes_agree g c ss.
+Proof. exact Proofs.ErrorsReaders.modes_agree_constructed. Qed.
+Print Assumptions modes_agree_constructed.
+
+(* .bib (1): every problem the .bib reader model reports, in any mode, on any text, is a constructed
+   error -- the state a TokenRequired carries satisfies bib_state_ok (via C10 errors_located) -- so
+   format_error_total_by_class applies to every .bib problem without a checked premise *)
+Theorem bib_errors_constructed : forall m text d s fn msg e,
+  BibParser.parse_bib m text = BibParser.Ret d s -> In e (BibParser.p_errs s) ->
+  constructed (ErrorsReaders.Bib.to_err text fn msg e).
+Proof. exact Proofs.ErrorsReaders.Bib.errors_constructed. Qed.
+Print Assumptions bib_errors_constructed.
+
+(* .bib (2): the reader IS a computation of the channel model.  With (d, s) what capture mode
+   returns and c = "report the problems of s in order, then return": non-strict reading returns
+   the same database and problems, strict reading returns the same when there is none and raises
+   exactly the first otherwise (C10), and c run under the channel model behaves the same way in
+   the three modes (modes_agree: collected / printed as warnings + error_code 2 / first raised) *)
+Theorem bib_reader_mode_independence : forall text d s fn msg g,
+  g_cap g = None -> BibParser.parse_bib BibParser.Capture text = BibParser.Ret d s ->
+  let ps := map (ErrorsReaders.Bib.to_err text fn msg) (BibParser.p_errs s) in
+  let c := comp_of ps Done in
+  reports c = ps /\ ending c = Returned /\
+  BibParser.parse_bib BibParser.NonStrict text = BibParser.Ret d s /\
+  (BibParser.p_errs s = [] -> BibParser.parse_bib BibParser.Strict text = BibParser.Ret d s) /\
+  (forall e rest, BibParser.p_errs s = e :: rest ->
+     BibParser.parse_bib BibParser.Strict text
+     = BibParser.Fatal (BibParser.FErr (BibParser.e_cls e) (BibParser.e_line e))) /\
+  exists ss, Forall2 (fun e s => format_error e k_warning = Ok s) ps ss /\ modes_agree g c ss.
+Proof. exact Proofs.ErrorsReaders.Bib.reader_modes. Qed.
+Print Assumptions bib_reader_mode_independence.
+
+(* .aux (1): every .aux problem, reported or fatal, is a constructed error *)
+Theorem aux_errors_constructed : forall msg e, constructed (ErrorsReaders.AuxR.to_err msg e).
+Proof. exact Proofs.ErrorsReaders.AuxR.err_constructed. Qed.
+Print Assumptions aux_errors_constructed.
+
+(* .aux (2): the reader IS a computation: with r the outcome of capture mode and c = "report the
+   problems of r in order, then return / raise the fatal error of r": non-strict reading is the
+   same reading, strict reading raises the first problem or reads the same if there is none (C20),
+   and c behaves accordingly under the channel model *)
+Theorem aux_reader_mode_independence : forall fuel fs top msg g,
+  g_cap g = None ->
+  let r := Aux.parse_aux fuel fs Aux.Capture top in
+  let ps := map (ErrorsReaders.AuxR.to_err msg) (ErrorsReaders.AuxR.errs_of r) in
+  let c := comp_of ps (ErrorsReaders.AuxR.last_of r msg) in
+  reports c = ps /\
+  Aux.parse_aux fuel fs Aux.Lenient top = r /\
+  (forall e rest, ErrorsReaders.AuxR.errs_of r = e :: rest -> r <> Aux.CrashO -> r <> Aux.NoFuel ->
+     exists a, Aux.parse_aux fuel fs Aux.Strict top = Aux.Raise e a) /\
+  (ErrorsReaders.AuxR.errs_of r = [] -> r <> Aux.CrashO -> r <> Aux.NoFuel ->
+     Spec.Aux.same_reading (Aux.parse_aux fuel fs Aux.Strict top) r) /\
+  exists ss, Forall2 (fun e s => format_error e k_warning = Ok s) ps ss /\ modes_agree g c ss.
+Proof. exact Proofs.ErrorsReaders.AuxR.reader_modes. Qed.
+Print Assumptions aux_reader_mode_independence.
+
+(* .bst (1): the line number of every TokenRequired the .bst parser model raises, on ANY text,
+   names a line of text.splitlines(True) -- no hypothesis on the text: string literals that run over
+   line ends included (since fix 6970deb / F29 get_token counts the line breaks inside a token; the
+   invariant follows that model: no token ends in CR, so the counts add up) ... *)
+Theorem bst_token_required_line : forall text l,
+  BstParser.parse_text text = PyErr BstParser.cls_token_required l ->
+  (1 <= l <= Z.of_nat (length (splitlines true text)))%Z.
+Proof. exact Proofs.ErrorsBst.bst_token_required_line. Qed.
+Print Assumptions bst_token_required_line.
+
+(* ... so every error the .bst parser raises is a constructed error and renders *)
+Theorem bst_errors_constructed : forall text fn desc pos c l,
+  BstParser.parse_text text = PyErr c l -> constructed (ErrorsReaders.BstR.to_err text fn desc pos c l).
+Proof. exact Proofs.ErrorsReaders.BstR.error_constructed. Qed.
+Print Assumptions bst_errors_constructed.
+
 (* ---- non-vacuity ---- *)
 Definition ex_aux : err :=
   mkErr 1 (s2l "illegal, another \bibstyle command") (FnStr (s2l "x.aux")) (SAux (Some 3%Z)) (CAux (Some (s2l "\bibstyle{b}"))).
@@ -269,4 +366,25 @@ Example hostile_message_example :
   = Ok (s2l "a{0}.aux: \citation{baz{0}{x}%s%(a)s\}" ++ [10%N] ++
         s2l "a{0}.aux: " ++ repeat 94%N 28 ++ [10%N] ++
         s2l "a{0}.aux: WARNING: in line 2: case mismatch error between cite keys Baz{0} and baz{0}{x}%s%(a)s\").
+Proof. vm_compute. reflexivity. Qed.
+
+(* the readers produce problems: the instances above are not vacuous *)
+Example bib_reader_example :
+  match BibParser.parse_bib BibParser.Capture (s2l "@a{k, t = }
+@b{k2, u = v}") with
+  | BibParser.Ret d s => map (fun e => (BibParser.e_cls e, BibParser.e_line e, BibParser.e_start e, BibParser.e_pos e)) (BibParser.p_errs s)
+  | _ => []
+  end = [(2%N, 1%Z, 0%nat, 10%nat); (5%N, 2%Z, 12%nat, 24%nat)].
+Proof. vm_compute. reflexivity. Qed.
+Example bst_multiline_string_example :
+  BstParser.parse_text (s2l "EXECUTE {""a
+b"" c}
+#") = PyErr BstParser.cls_token_required 3
+  /\ length (splitlines true (s2l "EXECUTE {""a
+b"" c}
+#")) = 3%nat.
+Proof. vm_compute. auto. Qed.
+Example bst_reader_example :
+  BstParser.parse_text (s2l "ENTRY {a}
+  {b} ?") = PyErr BstParser.cls_token_required 2.
 Proof. vm_compute. reflexivity. Qed.
